@@ -97,6 +97,7 @@ fn mk_send(target_ix: usize, via_expr: bool, type_ix: u32, payload: u32) -> Send
         2 => { sp.name_list.push("a".to_string()); }
         3 => { sp.content = Some(CommonContent { content: None, content_expr: Some("a + 1".to_string()) }); }
         4 => { let mut p = Parameter::new(); p.name = "p1".to_string(); p.expr = "a".to_string(); sp.params = Some(vec![p]); sp.name_list.push("a".to_string()); }
+        5 => { let mut p = Parameter::new(); p.name = "p2".to_string(); p.location = "arrv".to_string(); sp.params = Some(vec![p]); }
         _ => {}
     }
     sp
@@ -116,13 +117,14 @@ fn route() {
     let tix = if tix0 == 6 { 9 } else if tix0 == 7 { 12 } else { tix0 };
     let via_expr = vnd_bool(4);
     let type_ix = vnd_range(0, 2, 5);
-    let payload = vnd_conc(vnd_range(0, 4, 6), 4);
+    let payload = vnd_conc(vnd_range(0, 5, 6), 5);
     let a = vnd_i64(7);
     vnd_assume(a < i64::MAX);
     // addressed sessions must exist in this harness (failing targets: h_c12_send_errors)
     vnd_assume((tix != 4 || with_parent) && ((tix != 5 && tix != 12) || with_child));
     let t = topo(with_parent, with_child);
     t.g[0].lock().unwrap().data.set_undefined("a".to_string(), Data::Integer(a));
+    t.g[0].lock().unwrap().data.set_undefined("arrv".to_string(), Data::Array(vec![create_data_arc(Data::Integer(1)), create_data_arc(Data::Integer(a))]));
     if tix == 12 {
         let child = t.ex.state.lock().unwrap().sessions.get(&3).unwrap().clone();
         t.g[0].lock().unwrap().child_sessions.insert("scxml_kid".to_string(), child);
@@ -156,6 +158,8 @@ fn route() {
                 3 => e.param_values.is_none() && match &e.content { Some(Data::Integer(v)) => *v == a + 1, _ => false },
                 // namelist and <param> together: both values arrive
                 4 => int_param(&e, "p1") == Some(a) && int_param(&e, "a") == Some(a) && e.content.is_none(),
+                // <param location> naming an array: the structured value arrives
+                5 => match &e.param_values { Some(v) => v.len() == 1 && v[0].name == "p2" && match &v[0].value { Data::Array(items) => items.len() == 2 && match &*items[1].lock().unwrap() { Data::Integer(x) => *x == a, _ => false }, _ => false }, None => false },
                 _ => e.param_values.is_none() && e.content.is_none(),
             };
             vnd_check(1505, data_ok);
@@ -279,12 +283,18 @@ fn delayed_schedule() {
     // the delay is the literal attribute (any value) or comes from a delayexpr (2 s)
     let via_delayexpr = vnd_bool(5);
     if via_delayexpr { sp.delay_ms = 0; sp.delay_expr = src("'2s'", 6); } else { sp.delay_ms = delay; }
+    // the send id is the 'id' attribute ("sid1") or generated into the location "loc" (idlocation)
+    let via_idlocation = vnd_bool(7);
+    if via_idlocation { sp.name = String::new(); sp.name_location = "loc".to_string(); sp.parent_state_name = "st".to_string(); }
     let ok = sp.execute(&mut dm, &fsm);
+    let sid: String = if via_idlocation {
+        match t.g[0].lock().unwrap().data.get(&"loc".to_string()) { Some(d) => d.lock().unwrap().to_string(), None => String::new() }
+    } else { "sid1".to_string() };
     let negative = !via_delayexpr && delay >= (1u64 << 63);
     // delays beyond 1000 years are outside the timer's date range and are rejected like negative ones
     let too_large = !via_delayexpr && delay > 31_622_400_000_000 && delay < (1u64 << 63);
     let illegal = negative || too_large || tix == 1;
-    let pending = t.g[0].lock().unwrap().delayed_send.contains_key("sid1");
+    let pending = t.g[0].lock().unwrap().delayed_send.contains_key(sid.as_str());
     let e1 = drain_ext(&t.g[0]);
     let names = internal_names(&t.g[0]);
     vnd_cover(1601);
@@ -293,10 +303,11 @@ fn delayed_schedule() {
     if !illegal {
         if cancel_which != 0 {
             let mut c = Cancel::new();
-            c.send_id = if cancel_which == 1 { "sid1".to_string() } else { "sid2".to_string() };
+            // the id to cancel is given literally, or (for a generated id) read from the location through sendidexpr
+            if cancel_which == 1 && via_idlocation { c.send_id_expr = src("loc", 8); } else { c.send_id = if cancel_which == 1 { "sid1".to_string() } else { "sid2".to_string() }; }
             c.execute(&mut dm, &fsm);
         }
-        let still = t.g[0].lock().unwrap().delayed_send.contains_key("sid1");
+        let still = t.g[0].lock().unwrap().delayed_send.contains_key(sid.as_str());
         vnd_check(1603, still == (cancel_which != 1));
         // other sessions are not affected
         vnd_check(1604, t.g[1].lock().unwrap().delayed_send.is_empty() && drain_ext(&t.g[1]).is_empty());
